@@ -398,6 +398,12 @@ def run(ctx):
                 if exp is None:
                     ctx.unverifiable('R-LIFT', cfg, name, 'lane-uniform, but %s' % src)
                     continue
+            if mname == 'clamp' and exp is not None and exp is not lanes[0]:
+                # max(min(x, hi), lo) is the same value whenever lo <= hi, the documented (and asserted) precondition of clamp
+                ety_ = views[0].elem
+                alt_ = tm.iop('max', ety_, tm.iop('min', ety_, views[0].lanes[0], views[2].lanes[0]), views[1].lanes[0])
+                if alt_ is lanes[0]:
+                    exp = alt_
             if exp is not None and exp is not lanes[0]:
                 # identical up to exact ring identities?
                 ety = views[0].elem if views[0].kind != 'other' else e
